@@ -1,11 +1,49 @@
 import ShelxModel.JsonUtil
 import ShelxModel.C11
+import ShelxModel.C11Table
 open Lean Shelx.J
 
+/-
+  C11 driver.
+    {"p":"C11","op":"table"}                       -> the tabulated settings [{name, N, S, order}]
+    {"p":"C11","op":"expand","N":n,"S":[op…]}      -> {model: [op…] | null, spec: [op…], valid, mult}
+  An operator travels as {"m":[9 ints, row by row],"t":[[num,den],[num,den],[num,den]]} (exact).
+-/
 namespace Shelx.Drv.C11
+open Shelx.C11
+
+def ratPair (j : Json) : Except String Rat := do
+  match ← ints j with
+  | [n, d] => if d = 0 then err "zero denominator" else return mkRat n d.natAbs * (if d < 0 then -1 else 1)
+  | _ => err s!"expected [num, den], got {j.compress}"
+
+def opOf (j : Json) : Except String Op := do
+  let m ← field j "m" >>= ints
+  let t ← (← arrField j "t").mapM ratPair
+  match m, t with
+  | [a, b, c, d, e, f, g, h, i], [x, y, z] => return ⟨⟨a, b, c, d, e, f, g, h, i⟩, ⟨x, y, z⟩⟩
+  | _, _ => err s!"bad operator {j.compress}"
+
+def ofOp (o : Op) : Json :=
+  Json.mkObj [("m", ofInts [o.m.a11, o.m.a12, o.m.a13, o.m.a21, o.m.a22, o.m.a23, o.m.a31, o.m.a32, o.m.a33]),
+              ("t", ofRats [o.t.x, o.t.y, o.t.z])]
+
+def ofOps (l : List Op) : Json := Json.arr (l.map ofOp).toArray
 
 def handle (j : Json) : Except String Json := do
   let op ← strField j "op"
-  err s!"C11: unknown op {op}"
+  match op with
+  | "table" =>
+    return Json.arr (settings.map fun s =>
+      Json.mkObj [("name", Json.str s.name), ("N", ofInt s.N), ("S", ofOps s.S), ("order", ofNat s.order)]).toArray
+  | "expand" =>
+    let n ← intField j "N"
+    let s ← (← arrField j "S").mapM opOf
+    let model := match expand n s with | none => Json.null | some l => ofOps l
+    let spec := fullGroup n s
+    return Json.mkObj [("model", model), ("spec", ofOps spec),
+                       ("valid", Json.bool (validB n s)),
+                       ("mult", ofNat (mult n))]
+  | _ => err s!"C11: unknown op {op}"
 
 end Shelx.Drv.C11
